@@ -684,7 +684,9 @@ class ReplaceAssign(ast.NodeTransformer):
         if (isinstance(left, VerilogVariable)):
             node = VerilogVariableAssignment(left, newvalue)
         else:
-            node = VerilogSynchronousAssignment(left, newvalue)
+            # only integer variables can be updated in place, "self.port += 1"
+            # is a TypeError in Python (Wire + int), not a register update
+            raise TranspilationException('augmented assignment is only supported on integer variables')
         
         return node
 
